@@ -49,6 +49,7 @@ def h_layout(params, vals, ctx):
     if ".word" in params["text"]:
         require(vals["B"] % 2 == 0)  # word data on an odd address is an error by itself (C06)
     v2 = dict(vals)
+    v2["FIVE"] = 5
     for name, spec in params.get("derived", {}).items():
         v2[name] = lin(spec, v2)
     o = assemble([("a.mac", params["text"])], vals, route=ctx.route)
@@ -106,9 +107,62 @@ def _br(mn, tag, text, insn_off, total_len, derived, offname="OFF", reg=None, ra
               pre="B in 0..65535, R in 0..7, distance: every integer")
 
 
+def h_include(params, vals, ctx):
+    """Branches and relative operands inside an included file that point at a label of the including file."""
+    import os
+    from ref import pdp11_isa as isa
+    from ..common import BUILD
+    from ..symasm import write_aux_file, render
+    b, k = vals["B"], vals["K"]
+    require(0 <= b < 60000 and b % 2 == 0)
+    require(0 <= k <= 3)
+    from ..common import concretize
+    k = concretize(k)
+    sfx = "" if ctx.route == "inject" else f"_t{os.getpid()}"
+    inc = f"c04inc_{params['tag']}{sfx}.mac"
+    body = params["insn"] + "\n"
+    write_aux_file("c04", inc, body)
+    main = os.path.join(BUILD, "aux", "c04", f"main_{params['tag']}.mac")
+    pad = ".word 0\n" * k
+    link_first = params.get("link_pos", "start") == "start"
+    text = (".link {B}\n" if link_first else "") + "ext:: nop\n" + pad + f'.include "{inc}"\n.word 7\n' + ("" if link_first else ".link {B}\n")
+    o = assemble([(main, text)], vals, route=ctx.route, order=["B", "K"])
+    ctx.observe_outcome(o)
+    ctx.reach(o.status == "ok")
+    if o.status != "ok" or o.errors:
+        return False
+    off = 2 + 2 * k
+    n = params["insn_len"]
+    v2 = dict(vals)
+    v2["FIVE"] = 5
+    v2["T"] = b            # address of ext
+    v2["OFF"] = b - (b + off + 2)
+    return c01.decode_matches(isa, params["mn"], params["expect"], o.code[off:off + n], b + off, v2)
+
+
 def obligations(tier, seed):
     obs = []
     mns = BRANCHES + ["sob"]
+    # ---- inside an included file, at a symbolic (realised) distance from the parent's label, base known or not yet known
+    inc_cases = [
+        ("br", "br ext", 2, [{"kind": "disp", "offvar": "OFF"}]),
+        ("sob", "sob r3, ext", 2, [{"kind": "r", "reg": 3}, {"kind": "disp", "offvar": "OFF"}]),
+        ("rel", "mov ext, r0", 4, [{"kind": "g", "mode": 6, "reg": 7, "ext": "pcrel", "x": "T"}, {"kind": "g", "mode": 0, "reg": 0, "ext": None}]),
+        ("reldef", "clr @ext", 4, [{"kind": "g", "mode": 7, "reg": 7, "ext": "pcrel", "x": "T"}]),
+        ("rel-second", "mov #5, ext", 6, [{"kind": "g", "mode": 2, "reg": 7, "ext": "value", "x": "FIVE"}, {"kind": "g", "mode": 6, "reg": 7, "ext": "pcrel", "x": "T"}]),
+    ]
+    for tag, insn, ilen, expect in inc_cases:
+        for lp in ("start", "end"):
+            mn = insn.split()[0]
+            obs.append(Ob(oid=f"include/{tag}/link-{lp}", harness="pdpverif.props.c04:h_include",
+                          params={"tag": f"{tag}_{lp}", "insn": insn, "insn_len": ilen, "mn": mn, "expect": expect, "link_pos": lp},
+                          vars={"B": "int", "K": "int"}, timeout=300, per_path=90, note=f"ext:: nop / <K words> / .include {{ {insn} }}"))
+    # ---- numeric local labels whose spelling and octal value differ (10 is not 8, 017 is not 15.)
+    for mn in ("br", "bne", "sob"):
+        op = "%{R}, " if mn == "sob" else ""
+        for name, other in (("10", "8"), ("12", "10."), ("017", "15"), ("100", "64")):
+            text = f".link {{B}}\nG: nop\n{other}$: nop\n{name}: nop\n{mn} {op}{name}\n"
+            obs.append(_br(mn, f"numeric-local-{name}", text, 6, 8, {"OFF": {"c": -4}}))
     for mn in mns:
         op = "%{R}, " if mn == "sob" else ""
         # 1. '.+D' : every integer D
